@@ -575,6 +575,10 @@ type c20EndsCase struct {
 	// it calls Server.Close (whose own Close of that listener then reports an
 	// error): everything else must be ended all the same.
 	AppClosed int `json:"app_closed,omitempty"`
+	// Unbuffered: the silent connections are on a transport that buffers
+	// nothing, so that (without TLS) their handlers are parked in the Write
+	// of the banner, which nobody reads, rather than in a Read.
+	Unbuffered bool `json:"unbuffered,omitempty"`
 }
 
 // c20EndsRun: the clients do nothing at all to help - they neither disconnect
@@ -605,7 +609,12 @@ func c20EndsRun(c c20EndsCase) Verdict {
 		}
 	}
 	for i := 0; i < c.Silent; i++ {
-		cl, sv := listeners[i%len(listeners)].Dial()
+		var cl, sv *harness.End
+		if c.Unbuffered {
+			cl, sv = listeners[i%len(listeners)].DialSynchronous()
+		} else {
+			cl, sv = listeners[i%len(listeners)].Dial()
+		}
 		clients, servers = append(clients, cl), append(servers, sv)
 	}
 	for i := 0; i < c.Greeted; i++ {
@@ -623,7 +632,7 @@ func c20EndsRun(c c20EndsCase) Verdict {
 	// every handler has got as far as it can: it waits for its peer
 	if !r.Hub.WaitUntil(func() bool {
 		for _, sv := range servers {
-			if !sv.BlockedInReadLocked() {
+			if !sv.BlockedInReadLocked() && !sv.BlockedInWriteLocked() {
 				return false
 			}
 		}
@@ -652,6 +661,9 @@ func c20EndsRun(c c20EndsCase) Verdict {
 	}
 	if c.Listeners > 1 {
 		v.Classes = append(v.Classes, "two_listeners")
+	}
+	if c.Unbuffered && c.Silent > 0 && !c.Implicit {
+		v.Classes = append(v.Classes, "handler_parked_in_write")
 	}
 	if c.AppClosed > 0 {
 		v.Classes = append(v.Classes, "listener_closed_by_the_application_first")
@@ -1055,7 +1067,7 @@ func TestC20(t *testing.T) {
 						if silent+greeted == 0 || !mine(endsIdx) {
 							continue
 						}
-						if !raceSubtest(t, c20Ends, fmt.Sprintf("ends_%d", endsIdx), c20EndsCase{Implicit: implicit, Silent: silent, Greeted: greeted, Listeners: nl, AppClosed: app}) {
+						if !raceSubtest(t, c20Ends, fmt.Sprintf("ends_%d", endsIdx), c20EndsCase{Implicit: implicit, Silent: silent, Greeted: greeted, Listeners: nl, AppClosed: app, Unbuffered: endsIdx%2 == 0}) {
 							return
 						}
 					}
